@@ -49,18 +49,69 @@ fn timed<T>(w: &Watch, f: impl FnOnce() -> T) -> T {
 #[cfg(feature = "crypto")]
 fn feed_der(bytes: &[u8], f: &mut Vec<Finding>, w: &Watch) -> u64 {
     let mut calls = 0u64;
+    // an error that comes back is also formatted (Display, Debug, alternate Debug): formatting is part of the API
     macro_rules! call {
         ($name:expr, $e:expr) => {{
             calls += 1;
             if let Err(p) = timed(w, || guarded(|| {
-                let _ = $e;
+                if let Err(e) = $e {
+                    let _ = format!("{} {:?} {:#?}", e, e, e);
+                }
             })) {
                 f.push(panic_finding($name, p));
             }
         }};
     }
-    call!("CertificateParams::from_ca_cert_der", rcgen::CertificateParams::from_ca_cert_der(&bytes.to_vec().into()));
-    call!("CertificateSigningRequestParams::from_der", rcgen::CertificateSigningRequestParams::from_der(&bytes.to_vec().into()));
+    // what was imported is used: re-issue from the imported parameters (self-signed, as an issuer, as a request)
+    calls += 1;
+    if let Err(p) = timed(w, || guarded(|| {
+        match rcgen::CertificateParams::from_ca_cert_der(&bytes.to_vec().into()) {
+            Err(e) => {
+                let _ = format!("{} {:?} {:#?}", e, e, e);
+            }
+            Ok(p) => {
+                let (kp, _) = stub_key(Alg::Ed25519, &fake_pub(Alg::Ed25519, 3));
+                let _ = format!("{:?}", p);
+                match p.clone().self_signed(&kp) {
+                    Ok(ca) => {
+                        let _ = rcgen::CertificateParams::default().signed_by(&kp, &ca, &kp).map_err(|e| format!("{} {:?}", e, e));
+                        let _ = ca.pem();
+                    }
+                    Err(e) => {
+                        let _ = format!("{} {:?} {:#?}", e, e, e);
+                    }
+                }
+                let mut q = p;
+                q.serial_number = None;
+                q.is_ca = rcgen::IsCa::NoCa;
+                q.name_constraints = None;
+                q.crl_distribution_points = vec![];
+                q.use_authority_key_identifier_extension = false;
+                let _ = q.serialize_request(&kp).map_err(|e| format!("{} {:?}", e, e));
+            }
+        }
+    })) {
+        f.push(panic_finding("CertificateParams::from_ca_cert_der + re-issue", p));
+    }
+    calls += 1;
+    if let Err(p) = timed(w, || guarded(|| {
+        match rcgen::CertificateSigningRequestParams::from_der(&bytes.to_vec().into()) {
+            Err(e) => {
+                let _ = format!("{} {:?} {:#?}", e, e, e);
+            }
+            Ok(p) => {
+                let (kp, _) = stub_key(Alg::Ed25519, &fake_pub(Alg::Ed25519, 3));
+                let _ = format!("{:?}", p);
+                if let Ok(ca) = rcgen::CertificateParams::default().self_signed(&kp) {
+                    let again = p.params.serialize_request(&kp).map_err(|e| format!("{} {:?}", e, e));
+                    let _ = again;
+                    let _ = p.signed_by(&ca, &kp).map_err(|e| format!("{} {:?}", e, e));
+                }
+            }
+        }
+    })) {
+        f.push(panic_finding("CertificateSigningRequestParams::from_der + issue", p));
+    }
     call!("SubjectPublicKeyInfo::from_der", rcgen::SubjectPublicKeyInfo::from_der(bytes));
     call!("KeyPair::try_from(&[u8])", rcgen::KeyPair::try_from(bytes));
     call!("KeyPair::try_from(Vec<u8>)", rcgen::KeyPair::try_from(bytes.to_vec()));
@@ -97,7 +148,9 @@ fn feed_text(text: &str, f: &mut Vec<Finding>, w: &Watch) -> u64 {
         ($name:expr, $e:expr) => {{
             calls += 1;
             if let Err(p) = timed(w, || guarded(|| {
-                let _ = $e;
+                if let Err(e) = $e {
+                    let _ = format!("{} {:?} {:#?}", e, e, e);
+                }
             })) {
                 f.push(panic_finding($name, p));
             }
@@ -110,17 +163,15 @@ fn feed_text(text: &str, f: &mut Vec<Finding>, w: &Watch) -> u64 {
     let a = rc_alg(Alg::Ed25519).unwrap();
     call!("KeyPair::from_pem_and_sign_algo", rcgen::KeyPair::from_pem_and_sign_algo(text, a));
     call!("KeyPair::from_pkcs8_pem_and_sign_algo", rcgen::KeyPair::from_pkcs8_pem_and_sign_algo(text, rc_alg(Alg::EcP256).unwrap()));
-    call!("CidrSubnet::from_str", text.parse::<rcgen::CidrSubnet>());
+    call!("CidrSubnet::from_str", text.parse::<rcgen::CidrSubnet>().map_err(|_| rcgen::Error::CouldNotParseCertificate));
     call!("CertificateParams::new", rcgen::CertificateParams::new(vec![text.to_string()]));
-    call!("string types", {
-        let _ = rcgen::string::PrintableString::try_from(text);
-        let _ = rcgen::string::Ia5String::try_from(text);
-        let _ = rcgen::string::TeletexString::try_from(text);
-        let _ = rcgen::string::BmpString::try_from(text);
-        let _ = rcgen::string::UniversalString::try_from(text);
-        let _ = rcgen::string::BmpString::from_utf16be(text.as_bytes().to_vec());
-        let _ = rcgen::string::UniversalString::from_utf32be(text.as_bytes().to_vec());
-    });
+    call!("PrintableString::try_from", rcgen::string::PrintableString::try_from(text));
+    call!("Ia5String::try_from", rcgen::string::Ia5String::try_from(text));
+    call!("TeletexString::try_from", rcgen::string::TeletexString::try_from(text));
+    call!("BmpString::try_from", rcgen::string::BmpString::try_from(text));
+    call!("UniversalString::try_from", rcgen::string::UniversalString::try_from(text));
+    call!("BmpString::from_utf16be", rcgen::string::BmpString::from_utf16be(text.as_bytes().to_vec()));
+    call!("UniversalString::from_utf32be", rcgen::string::UniversalString::from_utf32be(text.as_bytes().to_vec()));
     calls
 }
 
@@ -247,6 +298,14 @@ fn part_parse_short(rep: &mut Report, thorough: bool) {
                 }
             }
         }
+    }
+    // long texts in which a multi-byte character straddles a power-of-two (or 255 / 65535) byte offset: refused by the
+    // restricted string types, and the refusal is formatted
+    for n in [16usize, 64, 128, 255, 256, 257, 512, 1024, 4096, 65535, 65536] {
+        texts.push(format!("{}\u{e9}z", "a".repeat(n - 1)));
+        texts.push(format!("{}\u{4e2d}z", "a".repeat(n - 1)));
+        texts.push(format!("{}\u{1f980}z", "a".repeat(n - 2)));
+        texts.push(format!("{}\u{0}", "a".repeat(n)));
     }
     for extra in ["1.2.3.4/33", "1.2.3.4/256", "::/129", "1.2.3.4/-1", "1.2.3.4//", "/", "1.2.3.4/", "999.1.1.1/8", "::1/00000000000000000008"] {
         texts.push(extra.to_string());
